@@ -93,8 +93,11 @@ var specs = map[string]spec{
 		assumptions: []string{"the reference interpreter harness/ref is the sequential semantics (cross-checked per instruction by C02)", "parallelism p means EU = WU = p on MVP-6.x and p cores on MVP-7.x/8", "a case matching the trigger of a finding listed in /verif/known-findings.txt is not judged on the configurations of that finding (counted under excluded_by_known_finding)", "budget of simulated loop iterations = 16 x (executed instructions + 64) x 309, never wall-clock"},
 	},
 	"C04": {
-		jobs:        []job{{name: "pressure", test: "TestC04", rapid: true, checks: [2]int{300, 8000}, shards: [2]int{16, 16}, secs: [2]int{900, 7200}}},
-		rule:        "PRESSURE (2-3 registers, ALU only) and PRESSURELOAD (2-4 registers, load producers, slow branches) programs of 3-24 instructions: chains, fans, WAW and WAR pairs, mixed-latency producers, chained forwards; each (case, configuration) is run three times in one process: all three must equal the reference and return the same cycle count. Non-trivial = the dynamic trace holds a RAW, WAW or WAR register dependence at distance <= 4 (classes dep:raw, dep:waw, dep:war, dep:raw-load-producer, dep:chained are counted); distinct by (text, registers, memory image).",
+		jobs: []job{
+			{name: "pressure", test: "TestC04", rapid: true, checks: [2]int{300, 8000}, shards: [2]int{16, 16}, secs: [2]int{900, 7200}},
+			{name: "forward", test: "TestC04Forward", shards: [2]int{4, 4}, secs: [2]int{600, 600}},
+		},
+		rule:        "forward = one-instruction programs, enumerated: every mnemonic that reads a register x source operand x 14x14 lattice values x four register patterns x plain / rename-table context; the operand's true value is delivered through the forwarding channel while the register file holds another value, and the architectural effect (C02's two oracles) must be the one of the true value. pressure = PRESSURE (2-3 registers, ALU only) and PRESSURELOAD (2-4 registers, load producers, slow branches) programs of 3-24 instructions: chains, fans, WAW and WAR pairs, mixed-latency producers, chained forwards; each (case, configuration) is run three times in one process: all three must equal the reference and return the same cycle count. Non-trivial = the dynamic trace holds a RAW, WAW or WAR register dependence at distance <= 4 (classes dep:raw, dep:waw, dep:war, dep:raw-load-producer, dep:chained are counted); distinct by (text, registers, memory image).",
 		assumptions: []string{"the reference interpreter harness/ref is the sequential semantics (cross-checked per instruction by C02)", "parallelism p means EU = WU = p on MVP-6.x and p cores on MVP-7.x/8", "a case matching the trigger of a finding listed in /verif/known-findings.txt is not judged on the configurations of that finding (counted under excluded_by_known_finding)", "budget of simulated loop iterations = 16 x (executed instructions + 64) x 309, never wall-clock"},
 	},
 	"C05": {
